@@ -185,7 +185,7 @@ Definition oracle_solution (c : case) : N :=
           let total := (f64_Q (c_par1 c) * inject_Z (Z.of_nat n))%Q in
           lorl [flag (svc_feasible (c_yb c) cb cb a eeq) 1;
                 (* sum |a_i| * r = nu * n *)
-                flag (Qleb (Qabs' (Qsub' (Qsum' (map Qabs' a) * rq) total)) (eeq * (1 + rq))) 2;
+                flag (nusvc_nu total rq a (eeq * (1 + rq))) 2;
                 flag (svc_kkt K (c_yb c) cb cb a rho (e / rq)) 4]
       end
   | OneClass =>
@@ -200,10 +200,8 @@ Definition oracle_solution (c : case) : N :=
       let p := match c_r c with Some r => Qopp (f64_Q r) | None => 0%Q end in
       let cq := f64_Q (c_par2 c) in
       let total := (cq * f64_Q (c_par1 c) * inject_Z (Z.of_nat n))%Q in
-      let l1 := Qsum' (map Qabs' a) in
       lorl [flag (svr_feasible cq a eeq) 1;
-            flag (Qleb (- e) p && Qleb l1 (total + eeq * (1 + cq)) &&
-                  (Qleb p e || Qleb (total - eeq * (1 + cq)) l1)) 2;
+            flag (nusvr_nu total p a e (eeq * (1 + cq))) 2;
             flag (svr_kkt K (qv (c_yr c)) cq p a rho e) 4]
   end).
 
